@@ -292,14 +292,16 @@ def _mask_text(m):
   return "%s with entries %s" % (tuple(m.shape), [str(e) for e in flat()])
 
 
-def layer_pe(repo, ci, name):
+def layer_pe(repo, ci, name, own_constraints=False):
   """An interpreter in which a layer class of the library can be built by
   its OWN constructor: the Keras parent constructor / get_config and the
   Keras (de)serialisers are stand-ins (see `base_init`), an inner
   `layers.BatchNormalization(...)` is an object that remembers and reports
   the options it was given."""
   garci = lambda pe_, a, k: (a[1], a[2])
-  pe = PE(repo, module_overrides={
+  # (own_constraints: the repository's own constraint / initializer helper
+  # is interpreted instead of the pass-through stand-in)
+  pe = PE(repo, module_overrides={} if own_constraints else {
       m: {"get_auto_range_constraint_initializer": garci}
       for m in (ci.module.name, "qkeras.qlayers")})
   pe.opaque_ext = True
@@ -370,6 +372,18 @@ def layer_pe(repo, ci, name):
         opts, name="batch_normalization", dtype="float32")
     return m
   eo["*.BatchNormalization"] = inner_bn
+  if own_constraints:
+    def kget(pe_, a, k):
+      v = a[0]
+      if isinstance(v, str):
+        cname = {"he_normal": "HeNormal", "ones": "Ones", "zeros": "Zeros",
+                 "glorot_uniform": "GlorotUniform",
+                 "orthogonal": "Orthogonal"}.get(v, v)
+        return Mock(cname, {"__class__": Mock("class", {"__name__": cname}),
+                            "scale": F(2), "name": v})
+      return v
+    eo["tf.keras.constraints.get"] = kget
+    eo["tf.keras.initializers.get"] = kget
   return pe
 
 
